@@ -267,6 +267,23 @@ func c02Cells(tier string) []Cell {
 		}
 	}
 
+	// A failure cached long ago is still lying in the failure cache as an EXPIRED entry: it is no recent failure and
+	// nothing of it (nor of the failure cache's own "expired" answer) may come out of Get.
+	for front := 0; front < 6; front++ {
+		for cfgBits := 0; cfgBits < 16; cfgBits++ {
+			for _, init := range []string{"A", "S", "T"} {
+				for _, sc := range []string{"o", "f"} {
+					c := FCfg{
+						Front: front, SU: boolBits(cfgBits, 0), SR: boolBits(cfgBits, 1), FH: boolBits(cfgBits, 2),
+						MS: boolBits(cfgBits, 3), Init: init, FailC: "1", Script: sc, Tags: []string{"failexpired"},
+						Threads: [][]GOp{{{Key: 0}}, {{Key: 0}}},
+					}
+					cells = append(cells, Cell{ID: c.ID()})
+				}
+			}
+		}
+	}
+
 	return cells
 }
 
